@@ -185,6 +185,10 @@ impl MultiRecordLog {
         payloads: T,
     ) -> Result<AppendOutcome, AppendError> {
         let next_position = self.in_mem_queues.next_position(queue)?;
+        if self.in_mem_queues.get_queue(queue)?.is_full() {
+            // the last record is at u64::MAX: nothing can come after it.
+            return Err(AppendError::Past);
+        }
         if let Some(position) = position_opt {
             // we accept position in the future, and move forward as required.
             if position.checked_add(1) == Some(next_position) {
